@@ -1,6 +1,8 @@
 """C04 -- per-stream protocol conformance (ids, one OKAY per WRTE, stop-and-wait, CLSE)."""
 import time
 
+from hypothesis import strategies as st
+
 from .. import harness, runner, scenario as sc, common
 from ..harness import Violation
 
@@ -8,7 +10,7 @@ ID = "C04"
 LEVEL = "exploration"
 RULE = ("Hypothesis-generated sessions: 1-6 operations from {shell, exec_out, streaming_shell, root, list, stat, pull, push} x model "
         "filesystem x device choices (remote ids, WRTE cuts of sync replies, lag of sync replies behind later OKAYs, eager/strict/duplicate "
-        "CLSE, CLSE(0,id) replies, packet order tape, device-side sync FAILs at SEND/k-th DATA/DONE/RECV, streaming_shell generators abandoned after k items, pull destinations that run out of space mid-transfer, slow commands whose output and CLSE arrive around a whole-command limit timeout_s); plus the same monitor over 2-3 concurrent operations under generated thread/task schedules (line-level preemption inside _open) x maxdata x both APIs. Oracle: protocol monitor inside the device model "
+        "CLSE, CLSE(0,id) replies, packet order tape, device-side sync FAILs at SEND/k-th DATA/DONE/RECV, streaming_shell generators abandoned after k items, pull destinations that run out of space mid-transfer, slow commands whose output and CLSE arrive around a whole-command limit timeout_s, an OPEN answered only after its caller timed out followed by further operations, commands whose service string is maxdata-4..maxdata+3 bytes long); plus the same monitor over 2-3 concurrent operations under generated thread/task schedules (line-level preemption inside _open) x maxdata x both APIs. Oracle: protocol monitor inside the device model "
         "(AOSP protocol.txt stream rules) plus end-of-operation accounting per stream. Non-trivial: a stream with >=2 device or host "
         "WRTEs, or >=2 streams. Distinct = distinct case hash.")
 ASSUMPTIONS = ["device simulator/monitor implements the stream rules of AOSP protocol.txt", "in-memory transport, virtual clock"]
@@ -99,11 +101,33 @@ def replay(part, case):
     return check_case(case)[0]
 
 
+@st.composite
+def cases(draw):
+    case = draw(sc.session(max_ops=6, fail_plans=True))
+    dev = case["device"]
+    if draw(st.sampled_from([False] * 4 + [True])):
+        # an OPEN that the device answers only after the caller's read timeout has run out; the operations after it use the same connection
+        i = draw(st.integers(0, len(case["ops"])))
+        cmd = "slow%d" % i
+        dev.setdefault("open_delay", {})[("shell:" + cmd).encode()] = draw(st.sampled_from([0.5, 0.8, 3.0]))
+        dev["services"][("shell:" + cmd).encode()] = [b"<late>"] * draw(st.integers(0, 2))
+        case["ops"].insert(i, {"op": "shell", "cmd": cmd, "decode": False, "read_timeout_s": 0.3, "transport_timeout_s": 0.1})
+    if draw(st.sampled_from([False] * 7 + [True])):
+        # a command whose service string is about as long as the device's maxdata: the destination stays NUL-terminated
+        m = dev["maxdata"]
+        n = m + draw(st.integers(-4, 3)) - len(b"shell:")
+        if 0 < n <= 70000:
+            cmd = ("L" * n)
+            dev["services"][b"shell:" + cmd.encode()] = [b"long-ok"]
+            case["ops"].append({"op": "shell", "cmd": cmd, "decode": False})
+    return case
+
+
 def run(tier, seed):
     t0 = time.time()
     n = 5000 if tier == "quick" else 100000
     col = harness.corpus_part(ID, "main", check_case)
-    col.merge(harness.hypothesis_part("main", sc.session(max_ops=6, fail_plans=True), check_case, n, seed, shrink=(tier == "thorough")))
+    col.merge(harness.hypothesis_part("main", cases(), check_case, n, seed, shrink=(tier == "thorough")))
     from . import c06
     col.merge(harness.hypothesis_part("concurrent", c06.workloads(), check_concurrent, 2000 if tier == "quick" else 40000, seed, shrink=(tier == "thorough")))
     return harness.finish(ID, tier, seed, LEVEL, col, RULE, ASSUMPTIONS, t0)
